@@ -61,6 +61,7 @@ def reproduce_and_report(res, origin):
         os.remove(f2)
         if sig not in [x['signature'] for x in again['violations']]:
             c.unreproduced('violation %s not reproduced on re-execution: %s' % (sig, v['detail']))
+            continue
         c.report(sig, v['detail'], {'raw': raw, 'expect': sig, 'origin': origin, 'harness': 'c12'})
 
 
